@@ -83,10 +83,12 @@ def judgeMut (input impl : String) : String × String :=
         let authenticated := kindM == "hdr" ||
           ((kindM == "flip" || kindM == "trunc" || kindM == "splice") &&
             (field == "protected" || field == "iv" || field == "ciphertext" || field == "tag"))
+        -- an envelope built by an outsider (no sender key involved) may be accepted, but only as an unattributed one
+        let unattributed (m : String) : Bool := (m.splitOn ":").getD 2 "" == "none"
         let bad := parsed.any fun (b, m) => match m with
           | none => false
-          | some m => m != "fail" && m != b
-        let accepted := parsed.any fun (_, m) => match m with | some m => m != "fail" | none => false
+          | some m => m != "fail" && m != b && !(kindM == "forge" && field != "skid" && unattributed m)
+        let accepted := kindM != "forge" && parsed.any fun (_, m) => match m with | some m => m != "fail" | none => false
         if bad then (modelCol, "MODIFIED-ENVELOPE-ACCEPTED-AS-SOMETHING-ELSE")
         else if authenticated && changed && accepted then (modelCol, "AUTHENTICATED-FIELD-CHANGED-BUT-ACCEPTED")
         else (modelCol, "=")
